@@ -8,8 +8,11 @@
 //!     it is in, `.includepath` lines blanked (they produce nothing).
 //!
 //! Paths are scratch-relative ("proj/src/f1.inc"); "$R/x" is the absolute spelling of "x".
-//! No symbolic links exist on the simulated disk, so lexical normalisation is exact as long as
-//! no ".." steps through a directory that does not exist; such spellings are not generated.
+//! Lexical normalisation is exact as long as no ".." steps through a directory that does not
+//! exist (such spellings are not generated) or through a symbolic link to a directory. The only
+//! directory links on the simulated disk are the aliases of `World::links` (link -> directory it
+//! points to); `join_norm_l` resolves them the way the kernel does - the moment the component is
+//! walked, so that a following ".." leaves the *target* - and its results are physical paths.
 
 use std::collections::BTreeMap;
 
@@ -48,12 +51,18 @@ pub fn dirname(p: &str) -> &str {
 /// Join `rel` onto the scratch-relative directory `dir` and normalise; None = leaves the root.
 /// "$R/..." is absolute (scratch root); any other absolute path is outside the model.
 pub fn join_norm(dir: &str, rel: &str) -> Option<String> {
-    let (mut parts, rest): (Vec<&str>, &str) = if let Some(r) = rel.strip_prefix("$R") {
+    join_norm_l(dir, rel, &BTreeMap::new())
+}
+
+/// `join_norm` on a disk with directory links (link path -> target directory, both physical and
+/// scratch-relative; targets contain no links themselves). `dir` is a physical path.
+pub fn join_norm_l(dir: &str, rel: &str, links: &BTreeMap<String, String>) -> Option<String> {
+    let (mut parts, rest): (Vec<String>, &str) = if let Some(r) = rel.strip_prefix("$R") {
         (vec![], r)
     } else if rel.starts_with('/') {
         return None;
     } else {
-        (dir.split('/').filter(|s| !s.is_empty()).collect(), rel)
+        (dir.split('/').filter(|s| !s.is_empty()).map(|s| s.to_string()).collect(), rel)
     };
     for c in rest.split('/') {
         match c {
@@ -61,7 +70,14 @@ pub fn join_norm(dir: &str, rel: &str) -> Option<String> {
             ".." => {
                 parts.pop()?;
             }
-            x => parts.push(x),
+            x => {
+                parts.push(x.to_string());
+                if !links.is_empty() {
+                    if let Some(t) = links.get(&parts.join("/")) {
+                        parts = t.split('/').filter(|s| !s.is_empty()).map(|s| s.to_string()).collect();
+                    }
+                }
+            }
         }
     }
     Some(parts.join("/"))
@@ -94,24 +110,29 @@ pub struct World<'a> {
     pub cwd: &'a str,
     /// caller-supplied directories, as given to build_file ("$R/..." or relative to the cwd)
     pub caller: &'a [String],
+    /// directory aliases on the disk: link path -> directory it points to
+    pub links: &'a BTreeMap<String, String>,
 }
 
 impl<'a> World<'a> {
+    pub fn join(&self, dir: &str, rel: &str) -> Option<String> {
+        join_norm_l(dir, rel, self.links)
+    }
     fn exists(&self, p: &str) -> bool {
         self.files.contains_key(p)
     }
     /// every existing file that the name could mean: documented places plus `extra` directories
     fn all_candidates(&self, fdir: &str, ipaths: &[String], extra: &[String], name: &str) -> Vec<String> {
-        let mut cands: Vec<Option<String>> = vec![join_norm(self.cwd, name)];
+        let mut cands: Vec<Option<String>> = vec![self.join(self.cwd, name)];
         if !name.starts_with("$R") && !name.starts_with('/') {
-            cands.push(join_norm(fdir, name));
+            cands.push(self.join(fdir, name));
             for c in self.caller {
-                if let Some(d) = join_norm(self.cwd, c) {
-                    cands.push(join_norm(&d, name));
+                if let Some(d) = self.join(self.cwd, c) {
+                    cands.push(self.join(&d, name));
                 }
             }
             for d in ipaths.iter().chain(extra.iter()) {
-                cands.push(join_norm(d, name));
+                cands.push(self.join(d, name));
             }
         }
         let mut v: Vec<String> = cands.into_iter().flatten().filter(|c| self.exists(c)).collect();
@@ -122,16 +143,16 @@ impl<'a> World<'a> {
     /// documented lookup of `name` from a file in directory `fdir` with `ipaths` in scope
     fn find_documented(&self, fdir: &str, ipaths: &[String], name: &str) -> Option<String> {
         let mut cands: Vec<Option<String>> = vec![];
-        cands.push(join_norm(self.cwd, name)); // the path as written
+        cands.push(self.join(self.cwd, name)); // the path as written
         if !name.starts_with("$R") && !name.starts_with('/') {
-            cands.push(join_norm(fdir, name)); // directory of the including file
+            cands.push(self.join(fdir, name)); // directory of the including file
             for c in self.caller {
-                if let Some(d) = join_norm(self.cwd, c) {
-                    cands.push(join_norm(&d, name));
+                if let Some(d) = self.join(self.cwd, c) {
+                    cands.push(self.join(&d, name));
                 }
             }
             for d in ipaths {
-                cands.push(join_norm(d, name));
+                cands.push(self.join(d, name));
             }
         }
         cands.into_iter().flatten().find(|c| self.exists(c))
@@ -211,7 +232,7 @@ pub fn paste(w: &World, main_file: &str) -> Result<Flat, String> {
                 stack.pop();
             }
             if let Some(arg) = parse_includepath(line) {
-                if let Some(d) = join_norm(&fdir, &arg) {
+                if let Some(d) = w.join(&fdir, &arg) {
                     possible.push(d.clone());
                     local.push((d, stack.clone()));
                 }
@@ -283,18 +304,25 @@ mod tests {
         assert_eq!(join_norm("a", "../../c"), None);
         assert_eq!(join_norm("a/b", "$R/x y/z"), Some("x y/z".into()));
         assert_eq!(join_norm("", "f"), Some("f".into()));
+        let mut l = BTreeMap::new();
+        l.insert("links/l0/deep/L0".to_string(), "a/b/zzq0".to_string());
+        assert_eq!(join_norm_l("x", "$R/links/l0/deep/L0/../C/f.inc", &l), Some("a/b/C/f.inc".into()));
+        assert_eq!(join_norm_l("links/l0", "deep/L0/../C", &l), Some("a/b/C".into()));
+        assert_eq!(join_norm_l("links/l0", "deep/L0x/../C", &l), Some("links/l0/deep/C".into()));
     }
     #[test]
     fn include_guard() {
         let mut files = BTreeMap::new();
         files.insert("m.asm".to_string(), ".include \"g.inc\"\n nop\n.include \"g.inc\"\n".to_string());
         files.insert("g.inc".to_string(), ".ifdef G\n.exit\n.endif\n.define G\n inc r4\n".to_string());
-        let w = World { files: &files, cwd: "", caller: &[] };
+        let nl = BTreeMap::new();
+        let w = World { files: &files, cwd: "", caller: &[], links: &nl };
         let f = paste(&w, "m.asm").unwrap();
         assert_eq!(f.text, ".ifndef G\n\n\n.define G\n inc r4\n.endif\n nop\n.ifndef G\n\n\n.define G\n inc r4\n.endif\n");
         assert!(f.ambiguous.is_empty());
         files.insert("g.inc".to_string(), ".ifdef G\n nop\n.exit\n.endif\n".to_string());
-        let w = World { files: &files, cwd: "", caller: &[] };
+        let nl = BTreeMap::new();
+        let w = World { files: &files, cwd: "", caller: &[], links: &nl };
         assert!(!paste(&w, "m.asm").unwrap().ambiguous.is_empty());
     }
 }
